@@ -2,6 +2,7 @@ package main
 
 import (
 	"fmt"
+	"go/token"
 	"go/types"
 	"strings"
 
@@ -162,6 +163,7 @@ func c19r2(w *World, rr *RuleRun) {
 	for _, e := range w.CG.CallersOf(hq) {
 		rr.At(w, e.Site, "handleQuery reached only from processPacket", e.Caller == pp, "caller: "+shortFuncName(e.Caller))
 	}
+	w.checkBlocklistInstalled(rr)
 	// ipBlocked's false class means: no list, or lookup miss on the same ip
 	sum := w.FE.Summary(ipBlocked, 0, "false", 0)
 	blk := w.P.Field("", "Server", "ipBlockList")
@@ -367,4 +369,60 @@ func c19r5(w *World, rr *RuleRun) {
 // lockWitness: a root-to-site call chain on which the class is not held (diagnosis only).
 func lockWitness(w *World, c *types.Var, ins ssa.Instruction) string {
 	return ""
+}
+
+// checkBlocklistInstalled: the list the gates consult is the list the API installs. The gate
+// (ipBlocked) reads one field; SetIPBlockList must store its argument into that very field,
+// IPBlocklist() must return it, and the constructor must seed it from the configuration.
+func (w *World) checkBlocklistInstalled(rr *RuleRun) {
+	ipBlocked := w.P.Func("(*Server).ipBlocked")
+	set := w.P.Func("(*Server).SetIPBlockList")
+	get := w.P.Func("(*Server).IPBlocklist")
+	// the field(s) of iplist.Ranger type the gate reads
+	gate := map[*types.Var]bool{}
+	eachInstr(w.RegionOf(ipBlocked), func(_ *ssa.Function, ins ssa.Instruction) {
+		if u, ok := ins.(*ssa.UnOp); ok && u.Op == token.MUL {
+			if fa, ok := u.X.(*ssa.FieldAddr); ok {
+				if fv := fieldOfAddr(fa); fv != nil && strings.HasSuffix(fv.Type().String(), "iplist.Ranger") {
+					gate[fv] = true
+				}
+			}
+		}
+	})
+	if len(gate) != 1 {
+		rr.Oblige(shortFuncName(ipBlocked), "the blocklist gate reads one list field", w.P.Pos(ipBlocked.Pos()), false, fmt.Sprintf("%d Ranger-typed fields read", len(gate)))
+		return
+	}
+	var gf *types.Var
+	for f := range gate {
+		gf = f
+	}
+	listP := w.TS.Of(set.Params[len(set.Params)-1])
+	okSet := false
+	for _, st := range w.FieldWrites([]*ssa.Function{set}, gf) {
+		if s, ok := st.(*ssa.Store); ok && termEq(w.TS.Of(s.Val), listP) {
+			okSet = true
+		}
+	}
+	rr.Oblige(shortFuncName(set), "SetIPBlockList installs its argument in the field the gates read", w.P.Pos(set.Pos()), okSet, "gate field "+gf.Name())
+	okGet, nRet := true, 0
+	eachInstr([]*ssa.Function{get}, func(_ *ssa.Function, ins ssa.Instruction) {
+		if r, ok := ins.(*ssa.Return); ok && len(r.Results) == 1 {
+			nRet++
+			if t := w.TS.Of(r.Results[0]); !isFieldTerm(t, gf) {
+				okGet = false
+			}
+		}
+	})
+	rr.Oblige(shortFuncName(get), "IPBlocklist() reports the list the gates read", w.P.Pos(get.Pos()), okGet && nRet > 0, "gate field "+gf.Name())
+	// seeded from the configuration at construction
+	cfg := w.P.Field("", "ServerConfig", "IPBlocklist")
+	ns := w.P.Func("NewServer")
+	okSeed := false
+	for _, st := range w.FieldWrites([]*ssa.Function{ns}, gf) {
+		if s, ok := st.(*ssa.Store); ok && hasFieldAnywhere(w.TS.Of(s.Val), cfg) {
+			okSeed = true
+		}
+	}
+	rr.Oblige("NewServer", "the configured IPBlocklist is installed in the field the gates read", w.P.Pos(ns.Pos()), okSeed, "gate field "+gf.Name())
 }
